@@ -918,7 +918,7 @@ Section ReachYield.
     match goal with
     | |- context [add_block ?h ?c ?t ?l ?ad] => destruct (add_block h c t l ad) as [c'|e1] eqn:E1
     end; cbn [fst n_c]; [|exact Hy].
-    unfold add_block in E1. eapply add_block_raw_one_yield; eauto.
+    apply add_block_ok_raw in E1. eapply add_block_raw_one_yield; eauto.
   Qed.
 
   Lemma commit_input_one_yield st fork sel u0 a0 news :
